@@ -273,7 +273,8 @@ def main():
             continue
         case = cases[idx] if idx < len(cases) else {}
         sig = case.get("sig") if isinstance(case, dict) else None
-        k = next((k for k in known if sig and sig == k.get("sig")), None)
+        k = next((k for k in known if (sig and sig == k.get("sig")) or
+                  (c == 0 and k.get("oracle_code") is not None and o == k.get("oracle_code"))), None)
         if k is not None:
             known_hit.setdefault(k["key"], []).append(idx)
         else:
